@@ -166,10 +166,15 @@ def gen_sd_protocol(vc, name, copy_of=None):
     return prot, sent
 
 
-def ob_send_sd_refines(vc):
-    """BOUNDED in the number of entries per call (0..2); destinations, session table,
-    entry fields and option runs symbolic"""
+def _gen_resolved_entry_for_send(vc, name):
     from contracts.spec_config import gen_entry
+
+    return gen_entry(vc, name, resolved=True)
+
+
+def ob_send_sd_refines(vc):
+    """send_sd for ARBITRARILY MANY entries per call (assign_option_indexes and the SD
+    encoder by contract); destinations, session table, entry fields and option runs symbolic"""
 
     a, sent_a = gen_sd_protocol(vc, "prot")
     b, sent_b = gen_sd_protocol(vc, "prot_spec")
@@ -177,8 +182,8 @@ def ob_send_sd_refines(vc):
     sa, sb = gen_storage(vc, "st")
     a.session_storage = sa
     b.session_storage = sb
-    n = vc.choice("n_entries", (0, 1))
-    entries = [gen_entry(vc, "e" + str(i), resolved=True) for i in range(n)]
+    entries = vc.seq("entries", _gen_resolved_entry_for_send)
+    n = len(entries)
     if vc.choice("remote_is_none", (True, False)):
         remote = None
     else:
